@@ -326,6 +326,14 @@ theorem C04_overloaded_attr_iff (path : String) (s : Schema) (fuel : Nat) (e : E
     hasError (overloadDiags path s fuel e) = false ↔ NoOverload s fuel e :=
   overload_noError_iff path s fuel e
 
+/-- `_partial` (one direction, every fuel and graph): when the look-up behind `SELF.a` / an unqualified UNIQUE reference
+    (`ENTITYget_named_attribute`) succeeds, `a` really is declared by the entity or by an entity reachable from it through
+    `SUBTYPE OF`.  The converse needs an acyclic supertype graph and enough fuel (on a cycle the C recursion does not return: the
+    model answers `none`) and is not proved -/
+theorem C04_self_attr_lookup_sound_partial (s : Schema) (an : String) (fuel : Nat) (en : String)
+    (h : namedAttr s an fuel en = some true) : ∃ x, ReachRefl (superGraph s) en x ∧ ownsAttr s an x = true :=
+  namedAttr_sound s an fuel en h
+
 /-- **overloaded attribute, stated without the look-up function**: `ENTITYresolve_expressions` reports OVERLOADED_ATTR for `e` ⇔ some new
     (not redeclared) attribute of `e` has a second declaration in a direct supertype or in an entity reachable from one through
     `SUBTYPE OF` — two distinct reachable declarations of one name.  (The look-up is the marked search the code uses since C06-17; it
